@@ -818,6 +818,15 @@ def run(ctx):
     rng = ctx.rng
     quick = ctx.tier == "quick"
     esc = ctx.escalate
+    from pyflwdir import rivers as _rv
+    if not hasattr(_rv, "solve_ivp") or not hasattr(_rv, "rivdph_gvf"):
+        # the oracle is recorded through the module attribute `pyflwdir.rivers.solve_ivp` of `rivers.rivdph_gvf`: a tree
+        # that reaches the solver another way (other import form, other function) cannot be observed call by call -
+        # only the wrapper's documented errors are judged; counted, not a failure (private structure is not API)
+        ctx.count("gvf:solver-hook-absent-in-this-tree")
+        ctx.notes.append("C14_gvf: pyflwdir.rivers.solve_ivp / rivdph_gvf not present - oracle-based cases skipped")
+        wrapper_errors(ctx)
+        return
     wrapper_errors(ctx)
     regressions(ctx)
     lean_example(ctx)
